@@ -180,6 +180,15 @@ def below_any(spec, tree, path):
 
 # ---------------------------------------------------------------- the check
 
+PLAINIFY = __import__('re').compile(r"(![A-Za-z0-9_.]+) '([A-Za-z0-9_.+-]+)'")
+
+
+def node_at(node, path):
+    for h in path:
+        node = node.value[h] if isinstance(h, int) else node.value[h[0]][h[1]]
+    return node
+
+
 def check(case, spec, tree, injected, res, fam, adm, base_outcome):
     """injected: list of (path, tag) already applied to tree"""
     text, back = case.R.checked(tree)
@@ -227,13 +236,51 @@ def check(case, spec, tree, injected, res, fam, adm, base_outcome):
         if all(w is True for w in where) and all(k in ('app', 'python') for k in kinds):
             res.nontrivial += 1
             res.hist['tag-below-any'] += 1
-            same = (o[0] == base_outcome[0] == 'ok' and eqv(o[1], base_outcome[1])) or (o[0] != 'ok' and base_outcome[0] != 'ok')
-            failsafe = 'python' in kinds and o[0] in ('rej', 'yamlerr')
-            if not same and not failsafe:
-                res.violation('C04:tag-not-ignored:%s:%s' % (fam, '+'.join(sorted(set(kinds)))),
-                              'document %r [%s beneath an Any/untyped/extra position] gives %s, without the tag(s) %s' % (
-                                  text, tagdesc, show(o[1]) if o[0] == 'ok' else o[0], show(base_outcome[1]) if base_outcome[0] == 'ok' else base_outcome[0]),
-                              pay)
+            # three spellings of the same tree: as PyYAML's emitter writes it (tagged scalars come out single-quoted),
+            # every scalar double-quoted, and the tagged scalars plain; "without the tag" a plain scalar is whatever
+            # its text resolves to and a quoted one is a string
+            variants = [('emitted', text, o)]
+            if all(k == 'app' for k in kinds):
+                try:
+                    variants.append(('quoted', case.R.render(tree, 'dq'), None))
+                except Exception:     # noqa
+                    pass
+                tplain = PLAINIFY.sub(r'\1 \2', text)
+                if tplain != text:
+                    variants.append(('plain', tplain, None))
+            want_view = models.view(models.to_node(tree))
+            for vname, vtext, vo in variants:
+                try:
+                    comp = case.R.compose(vtext)
+                except yaml.YAMLError:
+                    continue
+                if models.view(comp) != want_view:
+                    continue
+                plain = tree
+                at = dict(docs.positions(tree))
+                for p, t in injected:
+                    if at[p][0] == 's':
+                        st = node_at(comp, p).style
+                        plain = docs.replace(plain, p, ('s', case.ref.resolve(at[p][2]) if st is None else 'str', at[p][2]))
+                    else:
+                        plain = docs.replace(plain, p, (at[p][0], 'seq' if at[p][0] == 'q' else 'map', at[p][2]))
+                try:
+                    tp = case.R.render(plain)
+                except Exception:     # noqa
+                    continue
+                if vo is None:
+                    vo = case.impl(vtext)
+                    res.traces += 1
+                    res.transitions += 1
+                op = case.impl(tp)
+                res.hist['tag-below-any:' + vname] += 1
+                same = (vo[0] == op[0] == 'ok' and eqv(vo[1], op[1])) or (vo[0] != 'ok' and op[0] != 'ok')
+                failsafe = 'python' in kinds and vo[0] in ('rej', 'yamlerr')
+                if not same and not failsafe:
+                    res.violation('C04:tag-not-ignored:%s:%s:%s' % (fam, '+'.join(sorted(set(kinds))), vname),
+                                  'document %r [%s beneath an Any/untyped/extra position] gives %s, without the tag(s) (%r) %s' % (
+                                      vtext, tagdesc, show(vo[1]) if vo[0] == 'ok' else vo[0], tp, show(op[1]) if op[0] == 'ok' else op[0]),
+                                  loadcase.payload(spec, vtext, fam=fam, injected=[[list(map(str, p)), t] for p, t in injected], plain=tp))
             if o[0] == 'ok':
                 res.sample({'root': str(spec['root']), 'text': text, 'value': show(o[1])}, 2)
         elif any(t.startswith('!') and t[1:] in case.b.classes for p, t in injected):
@@ -344,6 +391,10 @@ def replay(payload):
     detail = 'load(%r) -> %s; constructed %s; canary %s' % (payload['text'], show(o[1]) if o[0] == 'ok' else o[0], inits,
                                                             'FIRED' if canary_fired() else 'quiet')
     viol = bool(bad) or nonconf or canary_fired() or o[0] == 'exc'
+    if not viol and payload.get('plain'):
+        o2 = case.impl(payload['plain'])
+        same = (o[0] == o2[0] == 'ok' and eqv(o[1], o2[1])) or (o[0] != 'ok' and o2[0] != 'ok')
+        return not same, detail + '; without the tags (%r): %s' % (payload['plain'], show(o2[1]) if o2[0] == 'ok' else o2[0])
     if not viol and payload.get('injected'):
         # compare with the document without the injected tags
         node = case.R.compose(payload['text'])
